@@ -524,7 +524,7 @@ class GitExec:
         self.w.git("reset", "-q", "--", self.w.scheme.path(p))
 
     def rm_cached(self, p):
-        self.w.git("rm", "-q", "--cached", "--", self.w.scheme.path(p))
+        self.w.git("rm", "-q", "-f", "--cached", "--", self.w.scheme.path(p))
 
     def commit(self):
         self.w.git("commit", "-q", "--allow-empty", "-m", "c18")
